@@ -132,7 +132,7 @@ func sameZone(a, b any) bool {
 // readBackType draws a type whose relationships carry no FromOne (a struct tag
 // cannot express it, so both implementations can agree on the definition).
 func readBackType(t *rapid.T) gen.TypeSpec {
-	ts := filterType(t, 6, true)
+	ts := filterTypeWide(t, 6, true, 300)
 	if rapid.IntRange(0, 5).Draw(t, "allkinds") == 0 {
 		ts.Attrs = gen.AllKindAttrs()
 	}
@@ -189,6 +189,7 @@ func TestC17ReadBack(t *testing.T) {
 		kinds := map[string]bool{}
 		nilTransitions := 0
 		sets := 0
+		steps := 0
 
 		do := func(desc string, f func(res jsonapi.Resource)) {
 			history = append(history, desc)
@@ -346,8 +347,19 @@ func TestC17ReadBack(t *testing.T) {
 					t.Fatalf("C17 violated: equality helper %s\ntype: %s\nhistory: %s", p, ts, strings.Join(history, "; "))
 				}
 			},
-			"": func(t *rapid.T) { check() },
+			"": func(t *rapid.T) {
+				// A wide type (more than 64 fields) is compared in full after
+				// one step in eight and at the end: every read of the library
+				// walks all the fields, twice over for each field read.
+				steps++
+				if len(ts.Attrs) > 40 && steps%8 != 0 {
+					return
+				}
+
+				check()
+			},
 		})
+		check()
 
 		r.Case(fmt.Sprintf("%s history: %s", ts, strings.Join(history, "; ")), sets >= 3 && len(kinds) >= 2 && nilTransitions >= 1,
 			fmt.Sprintf("sets:%d", min(sets/5*5, 30)), fmt.Sprintf("nil-transitions:%d", min(nilTransitions, 3)))
